@@ -98,6 +98,9 @@ def t1_view_kind_to_claim(prog):
                    (kname, got, want, 'start a conflicting task early' if want == 'Mutable' or (want == 'Immutable' and got == 'None') else 'needlessly serialise'))
         if not tail_ok:
             r.viol('T1', key + '/tail-claims-dropped', f.loc(), 'claims() does not append the tail registry\'s claims')
+    # cells of this table that are spelled as a per-view claim method/const are decided by T13; they count here
+    for i_ in t13_per_view_claim_methods(prog).instances:
+        r.inst('per-view cell (T13): ' + i_)
     return r
 
 
@@ -734,6 +737,8 @@ def t12_claims_lists_recurse(prog):
                 h = v[4][0]
                 is_lit = isinstance(h, tuple) and h[0] == 'agg' and str(h[1]).endswith('::Claim')
                 per_view = isinstance(h, tuple) and h[0] == 'call' and any((e['ret'] == h and (e['path'].rsplit('::', 1)[0], e['name']) in _claim_fns(prog)) for e in p.calls(lambda e: True))
+                if not per_view and isinstance(h, tuple) and h[0] == 'k' and isinstance(h[1], str):
+                    per_view = any(h[1].split('<')[0] == tp_ + '::' + nm_ for tp_, nm_ in _claim_consts(prog))
                 if not is_lit and not per_view:
                     r.viol('T12', key + '/head-claim-opaque', f.loc(), 'the head claim %s is neither a Claim literal nor a per-view claim method (T13): what this list publishes for its first element cannot be decided' % pathsem.tstr(h)[:60])
                     break
@@ -746,6 +751,8 @@ def t12_claims_lists_recurse(prog):
             if not ok:
                 r.viol('T12', key + '/tail-claims-dropped', f.loc(), 'claims() does not append the claims() of the tail of its list (got %s): the rest of the list is published as unclaimed' % pathsem.tstr(v)[:100])
             break
+    for i_ in t13_per_view_claim_methods(prog).instances:
+        r.inst('per-view head claim (T13): ' + i_)
     return r
 
 
@@ -761,6 +768,38 @@ def _claim_fns(prog):
             if tp and tp in prog.traits:        # a trait of this crate (not Default::default for Claim)
                 out.add((tp, f.name))
     return out
+
+
+def _claim_consts(prog):
+    """Associated consts of type `Claim` declared by a trait of this crate: (trait path, const name)."""
+    out = set()
+    for c in prog.facts.get('consts', []):
+        ty = ((c.get('mir') or {}).get('locals') or [{}])[0].get('ty') or {}
+        if ty.get('k') == 'adt' and ty['path'].endswith('query::view::claim::Claim'):
+            tp = c['path'].rsplit('::', 1)[0]
+            if tp in prog.traits:
+                out.add((tp, c['name']))
+    return out
+
+
+def _const_claim_value(c):
+    """What a `Claim` const evaluates to, read off its (straight-line) body: ('lit', variant) | ('fwd', const path,
+    generic args) | None"""
+    m = c.get('mir') or {}
+    if len(m.get('blocks', [])) != 1 or m['blocks'][0]['term']['k'] != 'return':
+        return None
+    val = None
+    for s_ in m['blocks'][0]['stmts']:
+        if s_['k'] == 'assign' and s_['place']['l'] == 0 and not s_['place']['p']:
+            rv = s_['rv']
+            if rv['k'] == 'agg' and rv.get('agg') == 'adt' and rv['path'].endswith('::Claim'):
+                val = ('lit', rv['vname'])
+            elif rv['k'] == 'use' and 'const' in rv['op'] and 'uneval' in rv['op']['const'] and 'promoted' not in rv['op']['const']:
+                k = rv['op']['const']
+                val = ('fwd', k['uneval'], [a for a in k.get('uneval_args', []) if a.get('k') != 'region'])
+            else:
+                val = None
+    return val
 
 
 @rule('T13', props=['C15', 'C08', 'C07'], floor=0, configs=('all',))
@@ -804,4 +843,33 @@ def t13_per_view_claim_methods(prog):
                 g = [json.loads(x) for x in fwd[0]['gargs']] if fwd else []
                 if not (fwd and tail is not None and g and ty_eq(g[0], strip_regions(tail))):
                     r.viol('T13', key + '/not-forwarding', f.loc(), 'an impl that skips its head must answer with the claim of its tail (got %s%s)' % (lit or pathsem.tstr(v)[:40], ', the trait default' if not f.impl else ''))
+    # the same table spelled as an associated const (`const CLAIM: Claim`)
+    for tp, name in sorted(_claim_consts(prog)):
+        tdp = prog.traits[tp].get('dp')
+        default = [c for c in prog.facts['consts'] if c['name'] == name and c['path'] == tp + '::' + name]
+        for imp in prog.facts['impls']:
+            if not imp['trait'] or imp['trait']['path'] != tp:
+                continue
+            own = [c for c in prog.facts['consts'] if c['name'] == name and c.get('parent') == imp['dp']]
+            c = (own or default or [None])[0]
+            st = imp['self']
+            head = st['e'][0] if st.get('k') == 'tuple' and len(st['e']) == 2 else st
+            tail = st['e'][1] if st.get('k') == 'tuple' and len(st['e']) == 2 else None
+            kind = view_kind_of(head)
+            key = '%s::%s for %s [%s]' % (tp.rsplit('::', 1)[-1], name, ty_str(st), '|'.join(ty_str(a) for a in trait_args(imp))[:60])
+            r.inst(key)
+            where = '%s:%s' % (c['span']['file'], c['span']['line']) if c else impl_loc(imp)
+            v = _const_claim_value(c) if c else None
+            if v is None:
+                r.viol('T13', key + '/not-analysable', where, 'cannot read the claim this impl publishes')
+                continue
+            if kind and kind[0] in ('ref', 'opt'):
+                want = 'Mutable' if kind[1] else 'Immutable'
+                if v != ('lit', want):
+                    r.viol('T13', key + '/wrong-claim', where, 'view kind %s publishes claim %s (%s) but must publish %s' % (kind_str(kind), v[1], 'inherited default' if not own else 'own const', want))
+            elif tail is None:
+                continue
+            else:
+                if not (v[0] == 'fwd' and v[1] == tp + '::' + name and v[2] and ty_eq(strip_regions(v[2][0]), strip_regions(tail))):
+                    r.viol('T13', key + '/not-forwarding', where, 'an impl that skips its head must answer with the claim of its tail (got %s%s)' % (v[1], ', the trait default' if not own else ''))
     return r
